@@ -23,6 +23,15 @@ func VpHBloom() {
 	if nk >= 2 && bpk > maxBits2 {
 		return
 	}
+	if nk == 1 && bpk > vpParam("bloom.maxbits1", 100) {
+		return
+	}
+	if vpParam("bloom.oneshot", 0) == 1 {
+		// per-probe obligations are pure bit-vector problems with a constant-modulus urem: a
+		// stand-alone solver run (bit-blasting tactic) decides them much faster than the
+		// incremental process
+		vpConfig("oneshot", 1)
+	}
 	hashes := make([]uint32, nk)
 	for i := range hashes {
 		hashes[i] = vpU32("h")
